@@ -1,7 +1,405 @@
-//! C26 — not built yet.
-use lv_common::Ctx;
+//! C26 — A header session returns exactly the requested range.
+//!
+//! The real `HeaderSession` (hook `lumina_node::verif::header_session::SessionDriver`) is polled by
+//! hand (no runtime, no timers: the session only uses mpsc/oneshot channels), so the harness owns the
+//! whole schedule: after every action the session is polled until it is quiescent (its waker is not
+//! set and it issued nothing new), newly issued requests are checked against the oracle, then the next
+//! recipe step picks one pending request and answers it with a prefix of the request (possibly empty)
+//! or a header-ex error. When the recipe's steps are exhausted every remaining request is answered
+//! in full, so the session must terminate within `len` further answers.
+use std::collections::BTreeSet;
+use std::future::Future;
+use std::pin::pin;
+use std::sync::Arc;
+use std::sync::atomic::{AtomicBool, Ordering};
+use std::task::{Context, Poll, Wake, Waker};
 
-pub fn run(_ctx: &mut Ctx) {
-    eprintln!("C26: check not built yet");
-    std::process::exit(2);
+use celestia_proto::p2p::pb::header_request::Data;
+use celestia_types::ExtendedHeader;
+use libp2p::request_response::OutboundFailure;
+use lumina_node::node::{HeaderExError, P2pError};
+use lumina_node::verif::header_session::{HeaderResponder, SessionDriver, TryNext};
+use lv_common::prelude::*;
+use lv_gen::longchain::cached_chain;
+
+/// limits stated by the property / DESIGN (deliberately NOT read from the code under test)
+const MAX_PER_REQUEST: u64 = 64;
+const MAX_PENDING: usize = 8;
+
+const CHAIN_SEED: u64 = 0xC26;
+const MAX_OFF: u64 = 64;
+const MAX_LEN: u64 = 2000;
+
+/// start heights of the cached chains: 1, small, medium, > u32, > 2^53, close to the i64 maximum
+const BASES: [u64; 6] = [1, 2, 1000, 1 << 32, (1 << 53) + 7, i64::MAX as u64 - 4200];
+
+#[derive(Clone, Debug, Serialize, Deserialize)]
+pub enum Answer {
+    Full,
+    Empty,
+    One,
+    AllButOne,
+    /// prefix length = pick(f, amount + 1)
+    Frac(u16),
+    NotFound,
+    InvalidResponse,
+    Timeout,
+    ConnClosed,
+}
+
+#[derive(Clone, Debug, Serialize, Deserialize)]
+pub struct Step {
+    /// which pending request (monotone selector over the pending list, oldest first)
+    pub which: u16,
+    pub answer: Answer,
+}
+
+#[derive(Clone, Debug, Serialize, Deserialize)]
+pub struct Case {
+    pub base: u8,
+    pub off: u16,
+    pub len: u16,
+    pub steps: Vec<Step>,
+    /// after the steps: answer the newest (true) or the oldest (false) pending request in full
+    pub tail_newest: bool,
+}
+
+fn answer_strategy() -> impl Strategy<Value = Answer> {
+    prop_oneof![
+        4 => Just(Answer::Full),
+        2 => Just(Answer::Empty),
+        2 => Just(Answer::One),
+        2 => Just(Answer::AllButOne),
+        3 => any::<u16>().prop_map(Answer::Frac),
+        1 => Just(Answer::NotFound),
+        1 => Just(Answer::InvalidResponse),
+        1 => Just(Answer::Timeout),
+        1 => Just(Answer::ConnClosed),
+    ]
+}
+
+fn case_strategy(max_steps: usize) -> impl Strategy<Value = Case> {
+    let len = prop_oneof![
+        2 => 1u16..=16,
+        2 => 17u16..=128,
+        3 => 129u16..=600,
+        3 => 601u16..=2000,
+        1 => prop_oneof![Just(1u16), Just(8), Just(9), Just(64), Just(65), Just(512), Just(513), Just(520), Just(2000)],
+    ];
+    (
+        0u8..BASES.len() as u8,
+        prop_oneof![2 => Just(0u16), 1 => 0u16..=MAX_OFF as u16],
+        len,
+        prop::collection::vec((any::<u16>(), answer_strategy()).prop_map(|(which, answer)| Step { which, answer }), 0..=max_steps),
+        any::<bool>(),
+    )
+        .prop_map(|(base, off, len, steps, tail_newest)| Case {
+            base,
+            off,
+            len,
+            steps,
+            tail_newest,
+        })
+}
+
+struct Flag(AtomicBool);
+
+impl Wake for Flag {
+    fn wake(self: Arc<Self>) {
+        self.0.store(true, Ordering::SeqCst);
+    }
+    fn wake_by_ref(self: &Arc<Self>) {
+        self.0.store(true, Ordering::SeqCst);
+    }
+}
+
+struct Pending {
+    height: u64,
+    amount: u64,
+    tx: HeaderResponder,
+}
+
+fn chain_for(base: u8) -> (u64, Arc<Vec<ExtendedHeader>>) {
+    let b = BASES[(base as usize).min(BASES.len() - 1)];
+    (b, cached_chain(CHAIN_SEED, b, (MAX_OFF + MAX_LEN + 1) as usize))
+}
+
+fn run_case(case: &Case, obs: &mut Obs) -> Result<(), Failure> {
+    let (base, chain) = chain_for(case.base);
+    let len = (case.len as u64).clamp(1, MAX_LEN);
+    let off = (case.off as u64).min(MAX_OFF);
+    let start = base + off;
+    let end = start + len - 1;
+    let idx = |h: u64| (h - base) as usize;
+
+    let (mut driver, mut reqs) = SessionDriver::new(start, end);
+    let flag = Arc::new(Flag(AtomicBool::new(false)));
+    let waker = Waker::from(flag.clone());
+    let mut cx = Context::from_waker(&waker);
+
+    let mut pending: Vec<Pending> = Vec::new();
+    let mut received: BTreeSet<u64> = BTreeSet::new();
+    let mut issued = 0u64;
+    let mut step_i = 0usize;
+    let mut tail_steps = 0u64;
+    let mut any_partial = false;
+    let mut any_empty = false;
+    let mut any_error = false;
+    let mut any_ooo = false;
+    let mut max_pending = 0usize;
+
+    let result = {
+        let mut fut = pin!(driver.run());
+        'outer: loop {
+            // ---- run the session to quiescence, checking every request it issues
+            let mut spins = 0u32;
+            loop {
+                flag.0.store(false, Ordering::SeqCst);
+                if let Poll::Ready(r) = fut.as_mut().poll(&mut cx) {
+                    break 'outer r;
+                }
+                let mut got = false;
+                loop {
+                    match reqs.try_next() {
+                        TryNext::Request(r) => {
+                            got = true;
+                            issued += 1;
+                            let amount = r.request.amount;
+                            let height = match r.request.data {
+                                Some(Data::Origin(h)) => h,
+                                ref other => {
+                                    return obs
+                                        .fail("C26:request-not-by-height", format!("session issued a request that is not by height: {other:?}"))
+                                        .map(|_| ());
+                                }
+                            };
+                            let ctxs = || format!("range {start}..={end}, request #{issued}: height {height} amount {amount}");
+                            obs.check(amount >= 1, "C26:request-empty", || format!("{}: empty request", ctxs()))?;
+                            obs.check(amount <= MAX_PER_REQUEST, "C26:request-over-64", || format!("{}: more than 64 headers", ctxs()))?;
+                            let last = height.checked_add(amount.max(1) - 1);
+                            obs.check(
+                                height >= start && last.is_some_and(|l| l <= end),
+                                "C26:request-outside-range",
+                                || format!("{}: not a sub-range of the session's range", ctxs()),
+                            )?;
+                            let last = last.unwrap_or(u64::MAX).min(end);
+                            if height <= last {
+                                if let Some(dup) = received.range(height..=last).next() {
+                                    obs.fail(
+                                        "C26:request-already-received",
+                                        format!("{}: height {dup} was already received", ctxs()),
+                                    )?;
+                                }
+                            }
+                            if let Some(p) = pending
+                                .iter()
+                                .find(|p| p.amount > 0 && amount > 0 && p.height <= last && height <= p.height.saturating_add(p.amount - 1))
+                            {
+                                obs.fail(
+                                    "C26:request-overlaps-pending",
+                                    format!("{}: overlaps pending request height {} amount {}", ctxs(), p.height, p.amount),
+                                )?;
+                            }
+                            pending.push(Pending {
+                                height,
+                                amount,
+                                tx: r.respond_to,
+                            });
+                            max_pending = max_pending.max(pending.len());
+                            obs.check(pending.len() <= MAX_PENDING, "C26:more-than-8-pending", || {
+                                format!("{}: {} requests pending at once", ctxs(), pending.len())
+                            })?;
+                        }
+                        TryNext::Empty | TryNext::Closed => break,
+                    }
+                }
+                if !got && !flag.0.load(Ordering::SeqCst) {
+                    break;
+                }
+                spins += 1;
+                if spins > 100_000 {
+                    return obs
+                        .fail("C26:busy-loop", format!("range {start}..={end}: session keeps waking itself without issuing requests"))
+                        .map(|_| ());
+                }
+            }
+
+            // ---- quiescent and not finished
+            if pending.is_empty() {
+                obs.fail(
+                    "C26:stalled",
+                    format!(
+                        "range {start}..={end}: session is idle with no pending request and has not completed ({} of {} heights received)",
+                        received.len(),
+                        len
+                    ),
+                )?;
+                return Ok(());
+            }
+
+            // ---- next action
+            let (i, answer) = if let Some(s) = case.steps.get(step_i) {
+                step_i += 1;
+                (pick(s.which, pending.len()), s.answer.clone())
+            } else {
+                tail_steps += 1;
+                if tail_steps > len + MAX_PENDING as u64 {
+                    obs.fail(
+                        "C26:no-termination",
+                        format!("range {start}..={end}: every request was answered in full {tail_steps} times and the session still runs"),
+                    )?;
+                    return Ok(());
+                }
+                (if case.tail_newest { pending.len() - 1 } else { 0 }, Answer::Full)
+            };
+            if i != 0 {
+                any_ooo = true;
+            }
+            let p = pending.remove(i);
+            let amount = p.amount;
+            let k = match answer {
+                Answer::Full => Some(amount),
+                Answer::Empty => Some(0),
+                Answer::One => Some(amount.min(1)),
+                Answer::AllButOne => Some(amount.saturating_sub(1)),
+                Answer::Frac(f) => Some(pick(f, amount as usize + 1) as u64),
+                _ => None,
+            };
+            let msg: Result<Vec<ExtendedHeader>, P2pError> = match k {
+                Some(k) => {
+                    // a prefix of the request, clipped to what exists in the chain (requests outside the
+                    // range were already reported above)
+                    let mut v = Vec::with_capacity(k as usize);
+                    for h in p.height..p.height.saturating_add(k) {
+                        if h >= base && idx(h) < chain.len() {
+                            v.push(chain[idx(h)].clone());
+                            received.insert(h);
+                        } else {
+                            break;
+                        }
+                    }
+                    if v.is_empty() {
+                        any_empty = true;
+                    } else if (v.len() as u64) < amount {
+                        any_partial = true;
+                    }
+                    Ok(v)
+                }
+                None => {
+                    any_error = true;
+                    Err(P2pError::HeaderEx(match answer {
+                        Answer::NotFound => HeaderExError::HeaderNotFound,
+                        Answer::InvalidResponse => HeaderExError::InvalidResponse,
+                        Answer::Timeout => HeaderExError::OutboundFailure(OutboundFailure::Timeout),
+                        _ => HeaderExError::OutboundFailure(OutboundFailure::ConnectionClosed),
+                    }))
+                }
+            };
+            let _ = p.tx.send(msg);
+        }
+    };
+
+    // ---- completion
+    let nontrivial = issued >= 2 && (any_partial || any_empty || any_error || any_ooo);
+    obs.eval(nontrivial.then(|| digest_of(case)));
+    obs.label("completed");
+    if start == 1 {
+        obs.label("start-1");
+    }
+    if start > u32::MAX as u64 {
+        obs.label("start-large");
+    }
+    match len {
+        1 => obs.label("len-1"),
+        2..=64 => obs.label("len-2..64"),
+        65..=512 => obs.label("len-65..512"),
+        _ => obs.label("len>512"),
+    }
+    if any_partial {
+        obs.label("partial-answer");
+    }
+    if any_empty {
+        obs.label("empty-answer");
+    }
+    if any_error {
+        obs.label("error-answer");
+    }
+    if any_ooo {
+        obs.label("out-of-order-answer");
+    }
+    if max_pending == MAX_PENDING {
+        obs.label("8-pending-reached");
+    }
+    if tail_steps == 0 {
+        obs.label("completed-within-recipe-steps");
+    }
+
+    obs.check(pending.is_empty(), "C26:completed-with-pending", || {
+        format!("range {start}..={end}: session completed while {} requests were unanswered", pending.len())
+    })?;
+    let headers = match result {
+        Ok(h) => h,
+        Err(e) => {
+            obs.fail(
+                "C26:unexpected-error",
+                format!("range {start}..={end}: only prefixes and header-ex errors were injected, session returned Err({e})"),
+            )?;
+            return Ok(());
+        }
+    };
+    let got: Vec<u64> = headers.iter().map(|h| h.height()).collect();
+    let exact = got.len() as u64 == len
+        && got.iter().enumerate().all(|(i, h)| *h == start + i as u64)
+        && headers.iter().enumerate().all(|(i, h)| *h == chain[idx(start) + i]);
+    obs.check(exact, "C26:result-not-exact-range", || {
+        let first_bad = got
+            .iter()
+            .enumerate()
+            .find(|(i, h)| **h != start + *i as u64)
+            .map(|(i, h)| format!("position {i} holds height {h}, expected {}", start + i as u64))
+            .unwrap_or_else(|| "heights match but a header differs / length differs".into());
+        format!("range {start}..={end}: result has {} headers (expected {len}); {first_bad}", got.len())
+    })?;
+    obs.check(received.len() as u64 == len, "C26:harness-accounting", || {
+        format!("harness delivered {} distinct heights for a range of {len}", received.len())
+    })?;
+    Ok(())
+}
+
+pub fn run(ctx: &mut Ctx) {
+    ctx.assume("header contents are irrelevant to the session (only heights): single-validator chains from lv_gen::longchain");
+    ctx.assume("the limits asserted (<= 64 headers per request, <= 8 pending) are the ones named in the property/DESIGN, not read from the code");
+    ctx.assume("responders answer only with prefixes of the request (possibly empty) or HeaderEx errors (NotFound, InvalidResponse, OutboundFailure), as the property's quantifier states");
+    ctx.assume("the session is polled by hand with a flag waker; quiescence = poll returned Pending, waker not set, no new request in the channel");
+    ctx.essential(&[
+        "completed",
+        "partial-answer",
+        "empty-answer",
+        "error-answer",
+        "out-of-order-answer",
+        "len>512",
+        "len-1",
+        "start-1",
+        "start-large",
+        "8-pending-reached",
+    ]);
+    // build the chains outside of the cases: a generator fault must not look like a finding
+    for b in 0..BASES.len() as u8 {
+        if let Err(rec) = lv_common::no_panic(|| chain_for(b)) {
+            ctx.inconclusive(format!("chain generator fault: {rec}"));
+            return;
+        }
+    }
+    let cases = ctx.tier.pick(4000, 60000);
+    let max_steps = ctx.tier.pick(120, 300);
+    ctx.set_shrink_iters(4000);
+    ctx.proptest(
+        "session-schedule",
+        "one real HeaderSession per case over a range of 1..2000 heights at 6 start-height bases; a proptest recipe of \
+         (which pending request, prefix/empty/error answer) steps, then full answers; non-trivial = at least 2 requests issued and at \
+         least one truncated/empty/error/out-of-order answer; distinct = digest of the recipe",
+        cases,
+        move || case_strategy(max_steps),
+        run_case,
+    );
 }
